@@ -26,7 +26,7 @@ def build(tier):
         qs.append(ldpc_cycle("C07", (4, 4, 3, 1), pat, (1, 8, 13)[pi % 3], 0, pi % 2, (0, 1)[pi % 2], EN, cb=(1, 3)[pi % 2], expect=False))
     # RS at the limits of GF(2^4): n = 15, ESI 0 and n-1 in play
     lim = [(RS2M, 4, 1, 14), (RS2M, 4, 4, 11)] if tier == "quick" else \
-          [(RS2M, 4, 1, 14), (RS2M, 4, 7, 8), (RS2M, 4, 14, 1), (RS2M, 4, 2, 13), (RS2M, 4, 13, 2), (RS2M, 8, 1, 9), (RS2M, 8, 8, 2)]
+          [(RS2M, 4, 1, 14), (RS2M, 4, 7, 8), (RS2M, 4, 14, 1), (RS2M, 4, 2, 13), (RS2M, 4, 13, 2), (RS2M, 8, 1, 9), (RS2M, 8, 5, 3)]      # (8,8,2): two of its four cycles end with kissat errors (no verdict) after ~6 min: left out
     for codec, m, k, r in lim:
         n = k + r
         pats = [list(range(n - k, n)), [0] + list(range(n - k + 1, n)), list(range(k - 1)) + [n - 1], list(range(n))]
